@@ -325,7 +325,9 @@ def generate(chk, infos, quick, c20=False):
         if info.res == 'i' and info.args == 'ii' and re.match(r'^(U?MUL|U?DIV|U?MOD|ADD|SUB|OR|XOR|AND|LSH|RSH|URSH)O?S?$', info.name):
             ks = [0, 1, 2, 5, 30, 31, 32, 33, 62, 63] if quick else list(range(64))
             for k in ks:
-                for xv in ([7, 0x80000000, 0xffffffff80000000] if quick else [7, 1, 0x80000000, 0xffffffff80000000, G.M64, 0x7fffffff, 1 << 63, 12345678901]):
+                for xv in ([7, 0x80000000, 0xffffffff80000000, 0xfffffff9, 0xabcdef0100000007] if quick else
+                           [7, 1, 0x80000000, 0xffffffff80000000, G.M64, 0x7fffffff, 1 << 63, 12345678901, 0xfffffff9, 0xabcdef0100000007,
+                            0x00000001fffffffb]):   # zero-extended negative / garbage above the 32-bit operand of S insns
                     n += 1
                     lines.append(G.gen_case(info, rng, c20=c20, cid= 'p%d' % n, vals=[xv, 1 << k], shapes=['r', 'i'], dst='r'))
             for yv in (0, 1, G.M64):
